@@ -30,7 +30,7 @@ import c10
 
 RULE = ("1-3 blocks of 1-4 chain-bonded atoms with nrexcl drawn from 0..4 (30 % uniform), .ff or .itp syntax (dangling "
         "next-residue bond), links `a >b` / `a +b` making one bond per adjacent residue pair (15 % of the pairs left "
-        "without link), explicit exclusions in blocks and links; residue graphs: paths, trees, one ring, 1-7 residues "
+        "without link), explicit exclusions in blocks (lines of 2-4 atoms, first atom vs each other) and links; residue graphs: paths, trees, one ring, 1-7 residues "
         "(10 thorough); non-trivial = at least two different exclusion distances among the residues and an "
         "inter-residue bond; 30 % of the cases with a bond made by a by_atom_id link; distinct = abstract case")
 
@@ -53,9 +53,11 @@ def gen_case(rng, max_res):
             ixns.append(["angles", [0, 1, 2], ["1", "120", "50"], {}])
         if natoms >= 3 and rng.random() < 0.25:
             ixns.append(["constraints", [0, natoms - 1], ["1", "0.4"], {}])
-        if natoms >= 2 and syntax == "ff" and rng.random() < 0.2:
-            a, b = rng.sample(range(natoms), 2)
-            ixns.append(["exclusions", [a, b], [], {}])
+        if natoms >= 2 and syntax == "ff" and rng.random() < 0.3:
+            # explicit exclusion line; with three or four atoms it reads as GROMACS reads it: the FIRST atom is
+            # excluded from each of the others (the others are not excluded from one another)
+            k = rng.choice([2, 2, 3, 3, 4]) if natoms >= 3 else 2
+            ixns.append(["exclusions", rng.sample(range(natoms), min(k, natoms)), [], {}])
         blocks.append(dict(name=name, nrexcl=(base if uniform else rng.randint(0, 4)), syntax=syntax, atoms=atoms, ixns=ixns))
     links = []
     dangling_done = set()
@@ -196,8 +198,10 @@ def one_case(ctx, case):
                 e=e, reqs=reqs)
 
 
-def upairs(pairs):
-    return sorted({tuple(sorted(p)) for p in pairs})
+def upairs(lines):
+    """unordered pairs of a list of exclusion entries, each read as GROMACS reads an [ exclusions ] line:
+    the first atom against each of the others"""
+    return sorted({tuple(sorted((line[0], other))) for line in lines for other in line[1:]})
 
 
 def judge(ctx, item, answers):
@@ -237,7 +241,7 @@ def judge(ctx, item, answers):
     if mixed and item["nrexcl_w"] != used[0]:
         # not demanded literally by the statement, but the effective set above already fails if this matters
         ctx.tally(mixed_nrexcl_not_min=True)
-    listed_u = [tuple(sorted(p)) for p in seen.get("generated", [])]
+    listed_u = [tuple(sorted((p[0], q))) for p in seen.get("generated", []) for q in p[1:]]
     if len(listed_u) != len(set(listed_u)):
         ctx.oracle_fail("generated-pair-twice", "a generated exclusion pair is listed twice: %s" % sorted(listed_u)[:6], replay)
     inter = any(len({next(k for k, atoms in c10.ownership(case).items() if x in atoms) for x in edge}) > 1 for edge in item["edges_w"])
